@@ -345,6 +345,11 @@ def _run(u: U, entry_only: bool, canary: bool = False):
                 "origin of the first URL")
         u.check("C17.cred.derived_auth_only_to_its_origin", Implies(headers.derived, headers.derived_oid == url.oid),
                 "Authorization derived from URL userinfo / netrc goes only to the origin it was derived for")
+        if isinstance(cookies, stubs.Opaque):
+            u.check("C17.jar.reselected_per_hop", False,
+                    "jar cookies are selected afresh for the URL of this very hop: the cookies put on this request are a "
+                    "value left over from an earlier iteration of the redirect loop (a cached selection)")
+            _end()
         u.check("C17.cred.request_cookies_only_to_their_origin", Implies(bool(cookies.has_request_cookies), url.oid == oid0),
                 "per-request cookies are merged in only for the origin of the first URL")
         u.check("C17.jar.reselected_per_hop", cookies.for_url is url and G["filtered_for"] is url,
@@ -461,7 +466,9 @@ def _run(u: U, entry_only: bool, canary: bool = False):
     def fresh_data(nm):
         return None if u.choose(2, "data@loop") == 0 else Body(u, log)
 
-    u.loop(FN, wl[0], inv=inv,
+    # stale_locals: a local that the redirect loop assigns but that is unbound on entry may, in a later iteration, still
+    # hold what the previous hop left in it (a cache across hops): it is an unknown value, not an unbound name
+    u.loop(FN, wl[0], inv=inv, stale_locals=True,
            types={"url": fresh_url, "headers": fresh_headers, "history": lambda nm: Hist(u.int("history.len@loop", 0), first_url),
                   "cookies": lambda nm: (None if u.choose(2, "cookies@loop") == 0 else "REQ-COOKIES-ARG"),
                   "data": fresh_data, "method": lambda nm: SymEnum(u, "method@loop", METHODS),
